@@ -35,6 +35,10 @@ static inline void gen_logical(Node& n) {
             break;
         default: break;      // UNKNOWN (always-null column) is not generated: the annotated columns here hold values
     }
+    // annotations that have a legacy converted_type twin are sometimes stated through it alone
+    bool twin = n.logical == 1 || n.logical == 4 || n.logical == 5 || n.logical == 6 || n.logical == 12 || n.logical == 13 || n.logical == 10 ||
+                ((n.logical == 7 || n.logical == 8) && n.lp1 == 1 && n.lp2 <= 2);
+    if (twin && draw(3) == 0) n.converted_only = true;
 }
 
 static inline void gen_node(Node& n, int depth, int& budget, const SchemaOpts& o, int& counter, bool force_leaf) {
